@@ -19,13 +19,15 @@ pub struct Knobs {
     pub groups: bool,
     pub links: bool,
     pub max_cel: u16,
+    /// tilemap cels only at tile-aligned offsets (C08's quantifier); C02 also composes unaligned ones
+    pub align_tiles: bool,
 }
 
 pub fn knobs(profile: &str) -> Knobs {
-    let base = Knobs { max_wh: 4, max_layers: 3, max_frames: 3, depths: vec![32, 16, 8], tiles: true, meta: true, extremes: true, groups: true, links: true, max_cel: 4 };
+    let base = Knobs { max_wh: 4, max_layers: 3, max_frames: 3, depths: vec![32, 16, 8], tiles: true, meta: true, extremes: true, groups: true, links: true, max_cel: 4, align_tiles: true };
     match profile {
         "struct" => Knobs { max_wh: 3, max_layers: 6, max_frames: 5, max_cel: 2, ..base },
-        "render" => Knobs { max_wh: 6, max_layers: 5, max_frames: 3, meta: false, max_cel: 7, ..base },
+        "render" => Knobs { max_wh: 6, max_layers: 5, max_frames: 3, meta: false, max_cel: 7, align_tiles: false, ..base },
         "cel" => Knobs { max_wh: 4, max_layers: 3, max_frames: 4, meta: false, tiles: false, max_cel: 5, ..base },
         "tile" => Knobs { max_wh: 7, max_layers: 3, max_frames: 2, meta: false, max_cel: 3, ..base },
         "big" => Knobs { max_wh: 24, max_layers: 6, max_frames: 4, max_cel: 24, ..base },
@@ -351,8 +353,9 @@ pub fn gen_sprite(r: &mut StdRng, k: &Knobs) -> Program {
                 let x = offs(r, w, cw, k.extremes);
                 let y = offs(r, h, ch, k.extremes);
                 // tile-aligned offsets for tilemaps (C08 quantifier)
-                let ax = if unit_w > 1 { ((x as i32 / unit_w as i32) * unit_w as i32) as i16 } else { x };
-                let ay = if unit_h > 1 { ((y as i32 / unit_h as i32) * unit_h as i32) as i16 } else { y };
+                let align = k.align_tiles || r.gen_bool(0.4);
+                let ax = if unit_w > 1 && align { ((x as i32 / unit_w as i32) * unit_w as i32) as i16 } else { x };
+                let ay = if unit_h > 1 && align { ((y as i32 / unit_h as i32) * unit_h as i32) as i16 } else { y };
                 (ax, ay, if r.gen_bool(0.5) { 255 } else { byte_b(r) })
             };
             let c = match plan[f] {
